@@ -103,7 +103,15 @@ void
 switchcase(struct switchcases *cases, unsigned long long i, struct block *b)
 {
 	struct switchcase *c;
+	unsigned long long m;
 
+	/* convert to the promoted type of the controlling expression */
+	if (cases->type->size < sizeof(i)) {
+		m = 1ull << cases->type->size * 8 - 1;
+		i &= m | m - 1;
+		if (cases->type->u.basic.issigned)
+			i = (i ^ m) - m;
+	}
 	c = treeinsert(&cases->root, i, sizeof(*c));
 	if (!c->node.new)
 		error(&tok.loc, "multiple 'case' labels with same value");
